@@ -84,7 +84,7 @@ theorem phase2_spec (a : List Nat) (ys pre rest : List Nat) (ops : List UOp)
         obtain ⟨ops', e1, e2⟩ := ih (pre ++ [y]) r2 ops ndb' (by simpa using ndv') (by simpa using h1')
           (by simpa using h2') (by simpa using h3')
         refine ⟨ops', ?_, ?_⟩
-        · have hh : (pre ++ y :: r2)[pre.length]? = some y := by simpa using hhead
+        · have hh : (pre ++ y :: r2)[pre.length]? = some y := by simp
           simp only [phase2, hya, if_true, hh, List.nil_append]
           simpa using e1
         · simpa using e2
